@@ -83,6 +83,20 @@ class Enum:
         return self.f(i if z3.is_expr(i) else z3.IntVal(int(i)))
 
 
+def knorm(eng, st, k):
+    """key_norm of an executor value, skipping the case split when the path already excludes
+    bool / Fraction keys (keeps triggers and models free of if-then-else)."""
+    if isinstance(k, SV) and k.hint is not None:
+        return k.t
+    t = eng.lift(k, st)
+    ts = z3.simplify(t)
+    if z3.is_app(ts) and ts.decl().name() in ("ref", "str", "int", "none", "bytes"):
+        return ts
+    if not eng.feasible(st, [z3.Or(V.is_bool(t), V.is_frac(t))]):
+        return t
+    return key_norm(t)
+
+
 def elem_eq(a, b):
     """Container element comparison: identity shortcut, then ==."""
     return z3.Or(a == b, ops.eq_term(None, a, b))
@@ -430,7 +444,7 @@ def install(eng):
                 pair = a0.item(eng, st, i)
                 if not (isinstance(pair, tuple) and len(pair) == 2):
                     raise Unsupported("immutables.Map(iterable): items are not pairs")
-                kt, vt = key_norm(eng.lift(pair[0], st)), eng.lift(pair[1], st)
+                kt, vt = knorm(eng, st, pair[0]), eng.lift(pair[1], st)
                 st.assume(
                     n >= 0,
                     z3.ForAll([i], z3.Implies(z3.And(i >= 0, i < n), z3.And(z3.Select(d, kt), z3.Select(m, kt) == vt))),
@@ -444,7 +458,7 @@ def install(eng):
             d = z3.K(V.Val, z3.BoolVal(False))
             size = z3.IntVal(0)
             for k, v in items:
-                kt, vt = key_norm(eng.lift(k, st)), eng.lift(v, st)
+                kt, vt = knorm(eng, st, k), eng.lift(v, st)
                 size = size + z3.If(z3.Select(d, kt), 0, 1)
                 m, d = z3.Store(m, kt, vt), z3.Store(d, kt, True)
             yield st, new_map_value(eng, st, IMap, m, d, size)
@@ -459,7 +473,7 @@ def install(eng):
     def im_set(eng, st, args, kw):
         self, k, v = args
         m, d, n = map_parts(self)
-        kt, vt = key_norm(eng.lift(k, st)), eng.lift(v, st)
+        kt, vt = knorm(eng, st, k), eng.lift(v, st)
         eng.escape(st, kt)
         eng.escape(st, vt)
         yield st, new_map_value(eng, st, IMap, z3.Store(m, kt, vt), z3.Store(d, kt, True), n + z3.If(z3.Select(d, kt), 0, 1))
@@ -468,7 +482,7 @@ def install(eng):
     def im_delete(eng, st, args, kw):
         self, k = args
         m, d, n = map_parts(self)
-        kt = key_norm(eng.lift(k, st))
+        kt = knorm(eng, st, k)
         for st1, present in eng.branch(z3.Select(d, kt), st):
             if present:
                 yield st1, new_map_value(eng, st1, IMap, m, z3.Store(d, kt, False), n - 1)
@@ -479,10 +493,17 @@ def install(eng):
         self, k = args[0], args[1]
         default = args[2] if len(args) > 2 else kw.get("default")
         m, d, n = map_parts(self)
-        kt = key_norm(eng.lift(k, st))
+        kt = knorm(eng, st, k)
         dt = eng.lift(default, st)
         r = z3.If(z3.Select(d, kt), z3.Select(m, kt), dt)
         st.assume(eng.external_ref_fact(st, r))
+        vt_ = getattr(eng, "value_type", None)
+        if vt_ is not None:
+            if hasattr(vt_, "bind"):
+                vt_.bind(eng)
+            fact = z3.Implies(z3.Select(d, kt), vt_.pred(z3.Select(m, kt)))
+            eng.oblige(st, f"declared value type {vt_.name} of the looked-up map entry follows from the preconditions", fact, "value-type")
+            st.assume(fact)
         yield st, SV(z3.simplify(r))
 
     eng.method_models[(IMap, "get")] = Model("Map.get", map_get)
@@ -490,7 +511,7 @@ def install(eng):
     def map_getitem(eng, st, args, kw):
         self, k = args
         m, d, n = map_parts(self)
-        kt = key_norm(eng.lift(k, st))
+        kt = knorm(eng, st, k)
         for st1, present in eng.branch(z3.Select(d, kt), st):
             if present:
                 r = z3.simplify(z3.Select(m, kt))
@@ -504,7 +525,7 @@ def install(eng):
     def map_contains(eng, st, args, kw):
         self, k = args
         m, d, n = map_parts(self)
-        yield st, SV(V.mk_bool(z3.Select(d, key_norm(eng.lift(k, st)))))
+        yield st, SV(V.mk_bool(z3.Select(d, knorm(eng, st, k))))
 
     eng.method_models[(IMap, "__contains__")] = Model("Map.__contains__", map_contains)
 
@@ -602,7 +623,7 @@ def install(eng):
             if isinstance(src, (tuple, list)):
                 content = EMPTY_SET
                 for x in src:
-                    content = z3.Store(content, key_norm(eng.lift(x, st)), True)
+                    content = z3.Store(content, knorm(eng, st, x), True)
             elif isinstance(src, SV) and src.hint is set:
                 content = z3.Select(st.sets, V.Val.a(src.t))
             else:
@@ -614,7 +635,7 @@ def install(eng):
     def set_add(eng, st, args, kw):
         self, x = args
         a = V.Val.a(self.t)
-        xt = eng.lift(x, st) if isinstance(x, SV) and x.hint is not None else key_norm(eng.lift(x, st))
+        xt = eng.lift(x, st) if isinstance(x, SV) and x.hint is not None else knorm(eng, st, x)
         eng.escape(st, xt)
         st.sets = z3.Store(st.sets, a, z3.Store(z3.Select(st.sets, a), xt, True))
         yield st, None
@@ -622,7 +643,7 @@ def install(eng):
     @mm(set, "__contains__")
     def set_contains(eng, st, args, kw):
         self, x = args
-        yield st, SV(V.mk_bool(z3.Select(z3.Select(st.sets, V.Val.a(self.t)), key_norm(eng.lift(x, st)))))
+        yield st, SV(V.mk_bool(z3.Select(z3.Select(st.sets, V.Val.a(self.t)), knorm(eng, st, x))))
 
     @mm(set, "__len__")
     def set_len(eng, st, args, kw):
